@@ -56,6 +56,7 @@ type Dims struct {
 	Batch       int     `json:"batch"`       // extra filler rows per flush group (large results / several batches)
 	LegacyMeta  bool    `json:"legacy_meta"` // the MetaStore yields uncompressed blocks with Compression "" (what files written before "" was normalised look like)
 	Reject      bool    `json:"reject"`      // a batch rejected as a whole is sent at a partition with buffered rows before each flush
+	Overlap     bool    `json:"overlap"`     // the last flush is held at its first store write while a whole Merge runs
 }
 
 type Case struct {
@@ -370,6 +371,7 @@ func (g *gen) NewCase(id int, thorough bool) *Case {
 	d.MergeMRG = []int{2, 4, 1000}[g.pick(3)]
 	d.LegacyMeta = g.pick(5) == 0
 	d.Reject = g.pick(5) == 0
+	d.Overlap = g.pick(4) == 0
 	if thorough && g.pick(10) == 0 {
 		d.Batch = 150 + g.pick(200)
 	} else if g.pick(25) == 0 {
